@@ -3,7 +3,7 @@
    [lname], compiled policy [p], SP [sp] with its metadata view [md], and
    identity (ordered list of (name, values)); proofs are by induction over
    those lists (Proofs/Policy_lemmas.v). *)
-From PV Require Import Lib.Base Gen.EntityCat Model.Policy Proofs.Policy_lemmas.
+From PV Require Import Lib.Base Gen.EntityCat Model.Policy Proofs.Policy_lemmas Model.PolicyRx Proofs.PolicyRx_lemmas.
 Open Scope N_scope.
 
 (* (1) what Assertion.apply_policy leaves in the assertion dict *)
@@ -263,3 +263,64 @@ Example C07_hypotheses_satisfiable :
     apply_policy rx no_ln p ident w_sp md = Ok [(s2l "givenName", [s2l "Anna"]); (s2l "mail", [s2l "a@x"])].
 Proof. eexists. split; vm_compute; reflexivity. Qed.
 Print Assumptions C07_hypotheses_satisfiable.
+
+(* ---- restriction LISTS of regular expressions: each expression is judged on its own ------------------------------- *)
+(* EXACT (iff): a value of a regex-restricted attribute is released iff it is an identity value and SOME SINGLE expression of
+   that attribute's list matches it; `matches` is any engine (re.compile(rx).match(v)), one expression and one value at a time *)
+Theorem C07_each_expression_on_its_own : forall (matches : str -> str -> bool) rest e rxs v,
+  lookup (lower (fst e)) rest = Some (Some rxs) ->
+  ((exists vs, favs_entry matches rest e = Some (fst e, vs) /\ In v vs) <->
+   (In v (snd e) /\ exists rx, In rx rxs /\ matches rx v = true)).
+Proof.
+  intros matches rest e rxs v Hl. rewrite (favs_entry_values_exact matches rest e rxs v Hl).
+  unfold released_by_list. rewrite filter_In, existsb_exists. reflexivity.
+Qed.
+Print Assumptions C07_each_expression_on_its_own.
+
+(* the outcome depends on the engine only through the (expression, value) pairs of the attribute's own list: an engine that differs
+   elsewhere (a flag of one expression seen by another, the list merged into one alternation) gives the same release *)
+Theorem C07_restriction_list_pointwise : forall m1 m2 rest e,
+  (forall rxs rx v, lookup (lower (fst e)) rest = Some (Some rxs) -> In rx rxs -> In v (snd e) -> m1 rx v = m2 rx v) ->
+  favs_entry m1 rest e = favs_entry m2 rest e.
+Proof. exact favs_entry_pointwise. Qed.
+Print Assumptions C07_restriction_list_pointwise.
+
+Theorem C07_value_matching_no_expression_withheld : forall m rxs vals v,
+  (forall rx, In rx rxs -> m rx v = false) -> ~ In v (released_by_list m rxs vals).
+Proof. exact released_by_list_none. Qed.
+Print Assumptions C07_value_matching_no_expression_withheld.
+
+(* witness: [(?i)anna; bob] - BOB matches neither expression on its own (it would under a leaked (?i) or as (?i)anna|bob) *)
+Example C07_flag_does_not_leak :
+  let m := tbl_matches [(s2l "(?i)anna", s2l "ANNA"); (s2l "(?i)anna", s2l "anna"); (s2l "bob", s2l "bob")] in
+  favs_entry m [(s2l "givenname", Some [s2l "(?i)anna"; s2l "bob"])] (s2l "givenName", [s2l "ANNA"; s2l "BOB"; s2l "bob"])
+  = Some (s2l "givenName", [s2l "ANNA"; s2l "bob"]).
+Proof. vm_compute. reflexivity. Qed.
+Print Assumptions C07_flag_does_not_leak.
+
+(* ---- the SP's categories are what its metadata lists under the entity-category Name, nothing else ------------------ *)
+Theorem C07_categories_only_under_their_name : forall ea c,
+  In c (md_entity_categories ea) <-> exists vs, In (ENTITY_CATEGORY, vs) ea /\ In c vs.
+Proof. exact md_entity_categories_In. Qed.
+Print Assumptions C07_categories_only_under_their_name.
+
+Theorem C07_other_entity_attributes_do_not_count : forall ea1 ea2 extra,
+  (forall e, In e extra -> fst e <> ENTITY_CATEGORY) ->
+  md_entity_categories (ea1 ++ extra ++ ea2) = md_entity_categories (ea1 ++ ea2).
+Proof. exact md_entity_categories_other_names. Qed.
+Print Assumptions C07_other_entity_attributes_do_not_count.
+
+(* composed with C07_category_allowance_exact / C07_every_outcome_documented_categories (whose `entitles (m_ecs m) ...` is over the
+   view): with the view taken from the raw metadata, every category named by the key of an entitling row is listed under the
+   entity-category Name - a value under entity-category-support never entitles *)
+Theorem C07_entitlement_from_raw_metadata : forall req ea reqf row a,
+  entitles (m_ecs (mdview_of req ea)) reqf row a ->
+  forall k, In k (snd (fst row)) -> k = [] \/ exists vs, In (ENTITY_CATEGORY, vs) ea /\ In k vs.
+Proof. exact entitles_from_metadata. Qed.
+Print Assumptions C07_entitlement_from_raw_metadata.
+
+Example C07_support_only_is_no_category :
+  md_entity_categories [(ENTITY_CATEGORY_SUPPORT, [s2l "http://refeds.org/category/research-and-scholarship"]);
+                        (s2l "urn:x", [s2l "c"])] = [].
+Proof. vm_compute. reflexivity. Qed.
+Print Assumptions C07_support_only_is_no_category.
